@@ -10,13 +10,13 @@ import (
 
 // Style chooses one of the many texts of a statement.
 type Style struct {
-	KwCase   int  // 0 upper, 1 lower, 2 mixed per letter
-	WS       int  // 0 single spaces, 1 tabs/newlines/multiple, 2 minimal
-	QuoteIDs bool // identifiers as "name"
-	OptKw    bool // write optional keywords (AS, INNER, ASC)
+	KwCase          int  // 0 upper, 1 lower, 2 mixed per letter
+	WS              int  // 0 single spaces, 1 tabs/newlines/multiple, 2 minimal
+	QuoteIDs        bool // identifiers as "name"
+	OptKw           bool // write optional keywords (AS, INNER, ASC)
 	LimitOffsetSwap bool
-	ZeroPad  bool // some non-negative integer literals get leading zeros (010 is ten)
-	R        *core.Rand
+	ZeroPad         bool // some non-negative integer literals get leading zeros (010 is ten)
+	R               *core.Rand
 }
 
 type tok struct {
